@@ -133,4 +133,12 @@ CHECKS = {
         "design_ref": "DESIGN.md section 3, C19",
         "note": "The fake clock is installed from outside (attribute of pyxel.outputs.outputs) in the check's own process; no source hook. jpg: existence only.",
     },
+    "C10": {
+        "technique": "property-based testing against a reference model of the decision-vector <-> parameter mapping (bounds, log10 / 10** conversion, slicing) at the pygmo-problem level, plus box / applied-values invariants over the evaluation log of real calibration runs",
+        "text": "Generated mixes of scalar and vector, linear and logarithmic variables with shared or per-component boundaries: get_bounds, convert_to_parameters (1-D, 2-D) and the values a logging probe "
+                "receives for decision vectors in the box and at its corners are compared with the harness's reference; short sade / sga / nlopt runs (1..2 islands, topologies, seeds) must keep every evaluation and "
+                "every reported champion / best decision inside the declared box, report parameters == convert(decision), report champions that were really evaluated, and leave the caller's objects unchanged. Exploration.",
+        "design_ref": "DESIGN.md section 3, C10",
+        "note": "The problem object is built exactly as Calibration.run_calibration builds it. Synchronous dask scheduler (schedulers are C07's subject).",
+    },
 }
